@@ -112,6 +112,11 @@ RemoveAt(s, i) == SubSeq(s, 1, i - 1) \o SubSeq(s, i + 1, Len(s))
 InsertAt(s, i, x) == SubSeq(s, 1, i - 1) \o << x >> \o SubSeq(s, i, Len(s))
 SwapAt(s, i) == [s EXCEPT ![i] = s[i + 1], ![i + 1] = s[i]]
 
+\* first DO with a given tag, or NoVal
+FirstVal(dos, tag) == IF \E i \in 1..Len(dos) : dos[i].tag = tag
+                      THEN dos[CHOOSE i \in 1..Len(dos) : dos[i].tag = tag /\ \A j \in 1..(i - 1) : dos[j].tag # tag].val
+                      ELSE NoVal
+
 \* labelled adversary moves on the response; w is what is on the wire (NoWire if the command was withheld)
 Apply(w, mv) ==
   CASE mv.name = "pass"     -> w
@@ -128,6 +133,9 @@ Apply(w, mv) ==
     [] mv.name = "swap"     -> [w EXCEPT !.dos = SwapAt(w.dos, mv.i)]
     [] mv.name = "extra"    -> [w EXCEPT !.dos = InsertAt(w.dos, mv.i, DO(128, Junk))]
     [] mv.name = "forge87"  -> [w EXCEPT !.dos = InsertAt(w.dos, 1, DO(87, Junk))]
+    \* an unauthenticated DO'85' (the other cryptogram tag, which Decode prefers) in front of the genuine objects,
+    \* carrying junk (i = 0) or the cryptogram of an earlier response (i = j): the genuine DO'87' / DO'99' / DO'8E' stay
+    [] mv.name = "forge85"  -> [w EXCEPT !.dos = InsertAt(w.dos, 1, DO(133, IF mv.i = 0 THEN Junk ELSE FirstVal(seen[mv.i].dos, 87)))]
 
 RespMoves(w) ==
   { Mv("short", 0, 0), Mv("garbage", 0, 0) }
@@ -142,7 +150,8 @@ RespMoves(w) ==
         \cup { Mv("dup", i, 0) : i \in 1..Len(w.dos) }
         \cup { Mv("swap", i, 0) : i \in 1..(Len(w.dos) - 1) }
         \cup { Mv("extra", i, 0) : i \in 1..Len(w.dos) }
-        \cup { Mv("forge87", 0, 0) })
+        \cup { Mv("forge87", 0, 0) }
+        \cup { Mv("forge85", j, 0) : j \in {0} \cup {i \in 1..Len(seen) : FirstVal(seen[i].dos, 87) # NoVal} })
 
 AdvMove(mv) ==
   /\ phase = "resp"
@@ -157,19 +166,17 @@ AdvMove(mv) ==
 
 AdvOnResponse == \E mv \in RespMoves(wire) \cup { Mv("pass", 0, 0) } : AdvMove(mv)
 
-\* first DO with a given tag, or NoVal
-FirstVal(dos, tag) == IF \E i \in 1..Len(dos) : dos[i].tag = tag
-                      THEN dos[CHOOSE i \in 1..Len(dos) : dos[i].tag = tag /\ \A j \in 1..(i - 1) : dos[j].tag # tag].val
-                      ELSE NoVal
-
 \* SecureMessaging.Decode, check by check: result [ok, data, sw] and the new counter
 DecodeResult(w, ssc) ==
   IF w.kind = "short" THEN [ok |-> FALSE, ssc |-> ssc]                        \* ParseRApdu fails: no counter change
   ELSE IF w.kind = "naked" THEN [ok |-> FALSE, ssc |-> IF NakedRollback THEN Dec(ssc) ELSE ssc]
   ELSE LET s == Inc(ssc) IN
        IF w.kind = "garbage" THEN [ok |-> FALSE, ssc |-> s]
-       ELSE LET d87 == FirstVal(w.dos, 87) d99 == FirstVal(w.dos, 99) d8e == FirstVal(w.dos, 142) IN
+       ELSE LET d85 == FirstVal(w.dos, 133) d87 == FirstVal(w.dos, 87) d99 == FirstVal(w.dos, 99) d8e == FirstVal(w.dos, 142) IN
             IF d8e = NoVal THEN [ok |-> FALSE, ssc |-> s]
+            \* the MAC input is SSC || DO'85' || DO'87' || DO'99': the chip never sends a DO'85' here, so a response
+            \* that carries one cannot have a matching MAC (it would be the object Decode decrypts and returns)
+            ELSE IF d85 # NoVal THEN [ok |-> FALSE, ssc |-> s]
             ELSE IF d8e # Mac(TK, s, d87, d99) THEN [ok |-> FALSE, ssc |-> s]
             ELSE IF d99 = NoVal \/ d99.t # "sw" THEN [ok |-> FALSE, ssc |-> s]
             ELSE IF d99.v # w.sw THEN [ok |-> FALSE, ssc |-> s]
